@@ -114,11 +114,12 @@ func (m *CPU) Run(app risc.Application) (int, error) {
 			if err != nil {
 				return 0, err
 			}
-			if f {
+			if f && (!flush || fp < from) {
+				// Several units may ask for a flush in the same cycle: the oldest branch decides
 				from = fp
+				pc = p
 			}
 			flush = flush || f
-			pc = max(pc, p)
 			ret = ret || r
 		}
 
